@@ -27,6 +27,11 @@ Case language (one case per line):   <node> ; <node> ; ... | <vec> | <vec> ...
     zshl oshl sshl zshr oshr sshr drotl drotr dshl dshr a amount               (dynamic amounts)
     shra n a arith | dshra a amount arith | dynbit a idx | dynslice w a off
     cat a.. | pack a.. | mux sel t0 t1 ..
+    mslice <spec> a aux..    several slice requests on ONE frontend object (C++ object identity kept, so the alias caches
+                             m_rangeAlias / m_bitAlias / m_msbAlias / m_lsbAlias / m_dynamicBitAlias are exercised), executed in
+                             order; result = pack(read_1, .., read_n, final value of the object).  spec = item,item,..
+                             item = r<form> | w<form>:V | g:V (x = aux[V]);  form = d:W:K x(aux[K],W) | p:P:K x.part(P,aux[K]) |
+                             q:P:K x.parts(P)[aux[K]] | b:K x[aux[K]] | s:O:W x(O,W) | t:P:I x.part(P,I) | i:I x[I] | m | l | u:W | o:W
   T in U(Int) S(Int) V(BVec) B(it); a vec holds one MSB-first 0/1/X string per pin ("-" = width 0).
 """
 import sys, os; sys.path.insert(0, os.path.join(os.path.dirname(os.path.abspath(__file__)), "..", "lib"))
@@ -131,6 +136,99 @@ def py_shra(a, n, c):
     if a.w == 0 or n == 0 or n > a.w: return REJ
     inshift = k_and(c.bits, a.bits[0])
     return Val("U", "n", inshift * n + a.bits[:a.w - n])
+
+def write_at(bits, off, w, v):
+    """the vector with bits off..off+w-1 replaced by v (LSB = 0), clipped at the top; None if off is beyond the vector"""
+    n = len(bits)
+    if off >= n: return None
+    lsb = list(reversed(bits)); vl = list(reversed(v))
+    for j in range(min(w, n - off)): lsb[off + j] = vl[j]
+    return "".join(reversed(lsb))
+
+def write_dyn(x, idx, n, mul, w, v):
+    opts = [write_at(x, i * mul, w, v) for i in range(n)]
+    if any(o is None for o in opts): return REJ
+    if has(idx, "X?"): return merge(opts + (["?" * len(x)] if "?" in idx else []), len(x))
+    i = uval(idx)
+    return opts[i] if i < n else "X" * len(x)
+
+def py_mslice(spec, x, aux):
+    if not is_vec(x.ty): return REJ
+    reads = []
+    for item in spec.split(","):
+        f = item.split(":")
+        if f[0] == "g":
+            v = aux[int(f[1])]
+            if v.ty != x.ty: return REJ
+            if v.w > x.w: x = Val(x.ty, x.pol, v.bits)
+            else:
+                y = expand(v.pol, v.bits, x.w)
+                if y == REJ: return REJ
+                x = Val(x.ty, x.pol, y)
+            continue
+        mode, form, a = f[0][0], f[0][1:], f[1:]
+        if mode == "r":
+            if form == "d": r = py_apply("dynslice", [a[0]], [x, aux[int(a[1])]])
+            elif form in "pq":
+                P, idx = int(a[0]), aux[int(a[1])]
+                if idx.ty != "U" or P == 0 or x.w % P: return REJ
+                pw = x.w // P
+                opts = [extract(x.bits, i * pw, pw) for i in range(P)]
+                if has(idx.bits, "X?"): r = Val(x.ty, x.pol, merge(opts + (["?" * pw] if "?" in idx.bits else []), pw))
+                else: r = Val(x.ty, x.pol, opts[uval(idx.bits)] if uval(idx.bits) < P else "X" * pw)
+            elif form == "b": r = py_apply("dynbit", [], [x, aux[int(a[0])]])
+            elif form == "s": r = py_apply("slice", a, [x])
+            elif form == "t":
+                P, I = int(a[0]), int(a[1])
+                if P == 0 or I >= P or x.w % P: return REJ
+                r = py_apply("slice", [str(I * (x.w // P)), str(x.w // P)], [x])
+            elif form == "i": r = py_apply("bit", a, [x])
+            elif form == "m": r = py_apply("msb", [], [x])
+            elif form == "l": r = py_apply("lsb", [], [x])
+            elif form == "u": r = py_apply("upper", a, [x])
+            elif form == "o": r = py_apply("lower", a, [x])
+            else: raise ValueError(item)
+            if r == REJ: return REJ
+            reads.append(r.bits)
+            continue
+        v = aux[int(a[-1])]; a = a[:-1]
+        def vecval(w):
+            return REJ if v.ty != x.ty else expand(v.pol, v.bits, w)
+        bitval = v.bits if v.ty == "B" else REJ
+        if form == "d":
+            idx, W = aux[int(a[1])], int(a[0])
+            if idx.ty != "U" or idx.w > 16: return REJ
+            y = vecval(W); nb = REJ if y == REJ else write_dyn(x.bits, idx.bits, 1 << idx.w, 1, W, y)
+        elif form in "pq":
+            P, idx = int(a[0]), aux[int(a[1])]
+            if idx.ty != "U" or P == 0 or x.w % P: return REJ
+            pw = x.w // P; y = vecval(pw); nb = REJ if y == REJ else write_dyn(x.bits, idx.bits, P, pw, pw, y)
+        elif form == "b":
+            idx = aux[int(a[0])]
+            if idx.ty != "U" or x.w == 0: return REJ
+            nb = REJ if bitval == REJ else write_dyn(x.bits, idx.bits, min(x.w, 1 << idx.w), 1, 1, bitval)
+        else:
+            if form == "s": off, w, y = int(a[0]), int(a[1]), vecval(int(a[1]))
+            elif form == "t":
+                P, I = int(a[0]), int(a[1])
+                if P == 0 or I >= P or x.w % P: return REJ
+                w = x.w // P; off = I * w; y = vecval(w)
+            elif form == "i":
+                if int(a[0]) >= x.w: return REJ
+                off, w, y = int(a[0]), 1, bitval
+            elif form in "ml":
+                if x.w == 0: return REJ
+                off, w, y = (x.w - 1 if form == "m" else 0), 1, bitval
+            elif form == "u":
+                w = int(a[0])
+                if w > x.w: return REJ
+                off, y = x.w - w, vecval(w)
+            elif form == "o": off, w, y = 0, int(a[0]), vecval(int(a[0]))
+            else: raise ValueError(item)
+            nb = REJ if y == REJ else (write_at(x.bits, off, w, y) or REJ)
+        if nb == REJ or nb is None: return REJ
+        x = Val(x.ty, x.pol, nb)
+    return Val("U", "n", x.bits + "".join(reversed(reads)))
 
 def py_apply(op, par, args):
     """mathematical definition; returns Val or REJ"""
@@ -333,6 +431,7 @@ def py_apply(op, par, args):
     if op in ("cat", "pack"):
         parts = A if op == "cat" else list(reversed(A))       # cat: first parameter is the most significant part
         return Val("U", "n", "".join(p.bits for p in parts))
+    if op == "mslice": return py_mslice(par[0], A[0], A[1:])
     if op == "mux":
         sel, table = A[0], A[1:]
         if not table: return REJ
@@ -351,7 +450,7 @@ def py_apply(op, par, args):
 
 NPAR = {"lits": 4, "litd": 3, "liti": 2, "litb": 1, "const": 3, "undef": 2, "cast": 1, "extto": 2, "extby": 2, "extred": 2,
         "slice": 2, "upper": 1, "lower": 1, "upperR": 1, "lowerR": 1, "bit": 1, "bitn": 1, "shl": 1, "shr": 1, "rotl": 1, "rotr": 1,
-        "shra": 1, "dynslice": 1}
+        "shra": 1, "dynslice": 1, "mslice": 1}
 
 def parse_case(line):
     parts = line.split("|")
@@ -551,9 +650,9 @@ class Gen:
         r = self.r
         c = self.vals[cur]
         w = c.w
-        cats = {"U": ["arith", "arith", "logic", "cmp", "cmp", "sshift", "sshift", "dshift", "ext", "slice", "slice", "cat", "mux", "cast", "not", "bitarith", "addc", "shra", "dyn", "dyn", "veclogicbit", "eqv"],
-                "S": ["arith", "arith", "arith", "logic", "cmp", "cmp", "cmp", "sshift", "sshift", "dshift", "ext", "slice", "slice", "cat", "mux", "cast", "not", "abs", "abs", "bitarith", "veclogicbit", "eqv"],
-                "V": ["logic", "cmp", "sshift", "dshift", "ext", "slice", "slice", "cat", "mux", "cast", "not", "veclogicbit", "eqv"],
+        cats = {"U": ["arith", "arith", "logic", "cmp", "cmp", "sshift", "sshift", "dshift", "ext", "slice", "slice", "cat", "mux", "cast", "not", "bitarith", "addc", "shra", "dyn", "dyn", "veclogicbit", "eqv", "mslice", "mslice"],
+                "S": ["arith", "arith", "arith", "logic", "cmp", "cmp", "cmp", "sshift", "sshift", "dshift", "ext", "slice", "slice", "cat", "mux", "cast", "not", "abs", "abs", "bitarith", "veclogicbit", "eqv", "mslice"],
+                "V": ["logic", "cmp", "sshift", "dshift", "ext", "slice", "slice", "cat", "mux", "cast", "not", "veclogicbit", "eqv", "mslice"],
                 "B": ["logic", "cmp", "not", "bitext", "cat", "muxsel", "bitarith_b", "veclogicbit_b", "mux"]}[c.ty]
         cat = r.choice(cats)
         if cat == "arith":
@@ -674,7 +773,69 @@ class Gen:
                 return None if idx is None else self.add("dynbit %d %d" % (cur, idx))
             off = self.operand("U", r.choice([0, 1, 2, 3, 4]))
             return None if off is None else self.add("dynslice %d %d %d" % (r.randint(0, min(w, 12)), cur, off))
+        if cat == "mslice": return self.mslice(cur)
         raise ValueError(cat)
+
+    def mslice(self, cur):
+        """several slices of ONE object, in forms whose alias-cache keys coincide in some fields (same index signal with
+        different strides / widths, same offsets with different widths, ...), reads and writes, random request order"""
+        r = self.r
+        c = self.vals[cur]; w = c.w
+        if w == 0: return self.add("mslice rs:0:0,ro:0 %d" % cur)
+        iw = r.choice([1, 2, 2, 3])
+        while (1 << iw) > w and iw > 0: iw -= 1
+        P = 1 << iw
+        div = (w % P == 0)
+        pw = w // P if div else r.randint(1, w)
+        aux = []
+        def auxnode(i):
+            if i is None: return None
+            aux.append(i); return len(aux) - 1
+        k0 = auxnode(self.operand("U", iw))
+        k1 = auxnode(self.operand("U", iw)) if r.random() < 0.5 else k0
+        if k0 is None or k1 is None: return None
+        vv = vb = None
+        items = []
+        n = r.choice([2, 2, 3, 3, 4, 5, 6])
+        forms = (["d", "d", "p", "q", "b", "s", "t", "i", "m", "l", "u", "o"] if div else ["d", "d", "b", "s", "i", "m", "l", "u", "o"])
+        # the collision pattern first, in either order, in a third of the cases
+        seq = []
+        if div and pw > 1 and r.random() < 0.35:
+            seq = [r.choice("pq"), "d"]; r.shuffle(seq)
+        while len(seq) < n: seq.append(r.choice(forms))
+        first_pair = len(seq) >= 2 and set(seq[:2]) <= set("pqd") and "d" in seq[:2] and (("p" in seq[:2]) or ("q" in seq[:2]))
+        for j, fm in enumerate(seq):
+            write = r.random() < 0.3 and not (first_pair and j < 2 and r.random() < 0.7)
+            k = k0 if (first_pair and j < 2) else r.choice([k0, k1])
+            if fm == "d":
+                W = pw if (first_pair and j < 2) else r.choice([pw, pw, 1, r.randint(0, min(w, 12))])
+                body, sw, bitform = "d:%d:%d" % (W, k), W, False
+            elif fm in "pq": body, sw, bitform = "%s:%d:%d" % (fm, P, k), pw, False
+            elif fm == "b": body, sw, bitform = "b:%d" % k, 1, True
+            elif fm == "s":
+                sw = r.choice([pw, pw, 1, r.randint(0, w)]); sw = min(sw, w)
+                off = r.choice([0, pw * r.randrange(P) if div else 0, r.randint(0, w - sw)])
+                if off + sw > w: off = w - sw
+                if write and off >= w: off = max(0, w - 1); sw = min(sw, w - off)
+                body, bitform = "s:%d:%d" % (off, sw), False
+            elif fm == "t": body, sw, bitform = "t:%d:%d" % (P, r.randrange(P)), pw, False
+            elif fm == "i": body, sw, bitform = "i:%d" % r.randrange(w), 1, True
+            elif fm in "ml": body, sw, bitform = fm, 1, True
+            else:
+                sw = r.choice([pw, r.randint(0, w)]); sw = min(sw, w)
+                if write and fm == "u" and sw == 0: sw = 1
+                body, bitform = "%s:%d" % (fm, sw), False
+            if write:
+                if bitform:
+                    if vb is None: vb = auxnode(self.operand("B", 1))
+                    if vb is None: return None
+                    items.append("w%s:%d" % (body, vb))
+                else:
+                    v = auxnode(self.operand(c.ty, sw))
+                    if v is None: return None
+                    items.append("w%s:%d" % (body, v))
+            else: items.append("r" + body)
+        return self.add("mslice %s %d %s" % (",".join(items), cur, " ".join(map(str, aux))))
 
 def exhaustive_cases(maxw):
     """all operand pairs for the width-sensitive signed operators at small widths, one case per
